@@ -19,9 +19,11 @@ JudgeCobs(e, take) ==
                THEN /\ e.res.ok = 1 /\ Has(e.res, "value") /\ e.res.value = r.v
                     /\ (take => e.res.rem_off = r.used /\ e.res.rem_len = n - r.used)
                ELSE e.res.ok = 0 /\ e.res.err = r.err
+      \* decoding works in place: nothing beyond the first frame is touched, and on success the decoded payload (which the
+      \* result borrows from) is at the front; what the rest of the frame's own bytes hold afterwards is not prescribed
       afterOK == /\ Len(e.after) = n
-                 /\ IF rep.ok THEN e.after = rep.buf
-                    ELSE SubSeq(e.after, fe + 1, n) = SubSeq(e.buf, fe + 1, n)          \* nothing beyond the first frame is touched
+                 /\ SubSeq(e.after, fe + 1, n) = SubSeq(e.buf, fe + 1, n)
+                 /\ rep.ok => SubSeq(e.after, 1, rep.dstUsed) = rep.out
       lv == IF r.kind = "ok" THEN SliceLeaves(r.tk) ELSE <<>>
       b == Bad(<< <<~IsPanic(e.res), "panic">>, <<resOK, "result">>, <<afterOK, "after">>, <<r.kind = "ok" => e.leaves = lv, "leaves">> >>)
   IN [ok |-> b = <<>>, exp |-> [bad |-> b, want |-> [fam |-> e.fam, res |-> IF r.kind = "ok" THEN [ok |-> 1, value |-> r.v, used |-> IF take THEN r.used ELSE -1] ELSE [ok |-> 0, err |-> r.err],
